@@ -740,21 +740,67 @@ def task_series(ctx, n):
     ctx.search("series", strat, check_history, n)
 
 
+# ----------------------------------------------------------------------
+# little stack left (pbt/depth.py): the Hill form taken from deep inside the caller's own recursion is the Hill form
+DEPTH_FORMULAS = ["O[18]O[16]O", "H{-}H{+}HD", "C[13]H4C2O[18]O", "Fe{3+}Fe{2+}2O{2-}4", "Cl{-}ClNaNa{+}", "TDHCH[1]H[2]",
+                  "U[238]U[235]U[234]O8", "HeNeArKrXeRn", "CaCO3(H2O)6", "C2H6OSiN"]
+
+
+def check_depth(ctx, case):
+    import sys
+    from .. import depth
+    E = env()
+    formula = E["formula"]
+    text = case["text"]
+    ctx.case(("depth", text, case["what"]), nontrivial=True, sample=case, cls=["little-stack:" + case["what"]])
+    f = formula(text)
+    if case["what"] == "hill":
+        fn = lambda: (f.hill.structure, str(f.hill))
+    elif case["what"] == "dict":
+        atoms = dict(f.atoms)
+        fn = lambda: (formula(atoms).structure, None)
+    else:
+        fn = lambda: (formula(text).hill.structure, None)
+    old = sys.getrecursionlimit()
+    try:
+        for limit in (old, 140, 60):
+            try:
+                sys.setrecursionlimit(limit)
+                bad = depth.sweep(fn, lambda a, b: deep_tuple(a[0]) == deep_tuple(b[0]) and a[1] == b[1], remaining=80)
+            except RecursionError:
+                continue            # not even the baseline fits under this limit
+            if bad:
+                sys.setrecursionlimit(old)
+                raise Violation("c19:little-stack:" + case["what"],
+                                "%s of %r with %d frames left below the recursion limit %d returned %r; anywhere else it is %r"
+                                % (case["what"], text, bad[0], limit, bad[1][0], fn()[0]), case)
+    finally:
+        sys.setrecursionlimit(old)
+
+
+def task_depth(ctx):
+    for text in DEPTH_FORMULAS:
+        for what in ("hill", "dict", "parse-hill"):
+            ctx.check(check_depth, {"kind": "depth", "text": text, "what": what})
+
+
 def tasks(tier):
     if tier == "quick":
         return ([("multisets-%d" % k, task_multisets, dict(n=330)) for k in range(8)] +
                 [("histories-%d" % k, task_histories, dict(n=200)) for k in range(3)] +
                 [("long-%d" % k, task_long, dict(n=60)) for k in range(2)] +
-                [("series", task_series, dict(n=150)), ("decimal", task_decimal, dict(n=150))])
+                [("series", task_series, dict(n=150)), ("decimal", task_decimal, dict(n=150)), ("little-stack", task_depth, {})])
     # coverage-guided tier (pbt/fuzz.py): libFuzzer drives the strategies and oracles of these tasks
     from .. import fuzz
     return fuzz.extend([("multisets-%d" % k, task_multisets, dict(n=10000)) for k in range(12)] +
                        [("histories-%d" % k, task_histories, dict(n=4000, steps=12 + 4 * k)) for k in range(4)] +
                        [("long-%d" % k, task_long, dict(n=1500)) for k in range(2)] +
-                       [("series", task_series, dict(n=4000)), ("decimal", task_decimal, dict(n=3000))], PROPERTY, ['multisets-0'])
+                       [("series", task_series, dict(n=4000)), ("decimal", task_decimal, dict(n=3000)), ("little-stack", task_depth, {})], PROPERTY, ['multisets-0'])
 
 
 def replay(ctx, case):
+    if case.get("kind") == "depth":
+        return check_depth(ctx, case)
     if case.get("kind") == "decimal":
         check_decimal(ctx, case)
     elif case.get("kind") == "long":
